@@ -28,6 +28,48 @@ def build(ctx, n, nsteps):
     return cases
 
 
+def high_numbers(ctx):
+    """Version numbers whose directory names differ in length (b9999, b10000, ...): an archive that has seen more than ten
+    thousand backups.  Two real versions are renumbered (a version carries its id only in its directory name); 'latest
+    complete' must select the numerically newest, a further backup gets the next id, every version restores to its snapshot."""
+    ta = scen.small_tree(ctx.rng)
+    tb, _ = gen.mutate_tree(ctx.rng, ta)
+    tc, _ = gen.mutate_tree(ctx.rng, tb)
+    for k, t in enumerate((ta, tb, tc)):
+        t["c"]["gen"] = {"k": "f", "data": (b"generation %d" % k).hex(), "mode": 0o644, "mtime": 10**18 + k}
+    o = scen.small_opts(ctx.rng)
+    for lo, hi in ((9999, 10000), (99, 100000), (9998, 9999)):
+        steps = [{"op": "init"},
+                 {"op": "mktree", "path": "src", "tree": ta}, {"op": "snap", "path": "src"}, {"op": "backup", "opts": o},
+                 {"op": "mktree", "path": "src", "tree": tb}, {"op": "snap", "path": "src"}, {"op": "backup", "opts": o},
+                 {"op": "rename", "from": "b0001", "to": f"b{hi:04d}"}, {"op": "rename", "from": "b0000", "to": f"b{lo:04d}"},
+                 {"op": "versions"}, {"op": "restore", "dest": "latest1"}, {"op": "restore", "band": lo, "dest": "lo"}, {"op": "restore", "band": hi, "dest": "hi"},
+                 {"op": "mktree", "path": "src", "tree": tc}, {"op": "snap", "path": "src"}, {"op": "backup", "opts": o}, {"op": "arch"},
+                 {"op": "restore", "dest": "latest2"}, {"op": "restore", "band": hi + 1, "dest": "new"}]
+        r = ctx.cvh_run([{"id": "hn", "steps": steps}]).get("hn")
+        ctx.count()
+        small = {"steps": steps}
+        if r is None or any(isinstance(x, dict) and x.get("panic") for x in r):
+            ctx.oracle_fail("history/panic", "an operation crashed on an archive with five-digit version numbers", small)
+            continue
+        sa, sb, sc_ = r[2]["tree"], r[5]["tree"], r[14]["tree"]
+        checks = [("latest complete (two versions)", r[10], sb), (f"b{lo:04d}", r[11], sa), (f"b{hi:04d}", r[12], sb),
+                  ("latest complete (after a third backup)", r[17], sc_), (f"b{hi + 1:04d}", r[18], sc_)]
+        bad = None
+        for what, got, want in checks:
+            if got.get("result") != "ok" or got.get("monitor_errors") or scen.first_difference(scen.strip(want), scen.strip(got.get("tree"))):
+                bad = what
+                break
+        if bad is None and f"b{hi + 1:04d}" not in r[16]["arch"]["dirs"]:
+            bad = f"the third backup did not get id {hi + 1}"
+        if bad:
+            sig = "history/latest-not-newest" if bad.startswith("latest") else "history/version-differs"
+            ctx.oracle_fail(sig, f"versions b{lo:04d} and b{hi:04d} (directory names of different lengths): {bad} does not restore to its snapshot", small)
+        else:
+            ctx.nontrivial(f"high:{lo}:{hi}")
+            ctx.dist("five_digit_version_numbers")
+
+
 def run(ctx):
     quick = ctx.tier == "quick"
     cases = build(ctx, 36 if quick else 400, 8 if quick else 18)
@@ -126,6 +168,7 @@ def run(ctx):
         keep = [(st, mk, rs) for st, mk, rs in zip(c["steps"], c["marks"], r) if mk["kind"] not in ("restore", "restore_latest", "versions")]
         scen.add_model_history(h, [x[0] for x in keep], [x[1] for x in keep], [x[2] for x in keep], names)
         hs.append(h)
+    high_numbers(ctx)
     out = l4.evaluate(ctx, "C02", hs, shards=8 if quick else 16)
     agreed = total = 0
     for h in hs:
